@@ -82,13 +82,14 @@ def oid_of(ob):
 
 class Policy:
     deny = frozenset()
+    allow_underscore = False      # True: a permissive guard that has no underscore rule of its own
 
 
 def guarded_getattr(ob, name):
     from zExceptions import Unauthorized
     o = oid_of(ob)
     LOG.append({'e': 'genter', 'o': o, 'a': name})
-    if (o, name) in Policy.deny or name[:1] == '_':
+    if (o, name) in Policy.deny or (name[:1] == '_' and not Policy.allow_underscore):
         LOG.append({'e': 'gexit', 'o': o, 'a': name, 'r': 'deny'})
         raise Unauthorized(name)
     try:
@@ -223,8 +224,16 @@ CONTEXTS = {
 }
 
 
-def run_case(ch, cls, secret, syn='html', ctx='plain', deny=None):
+def run_case(ch, cls, secret, syn='html', ctx='plain', deny=None, permissive=False):
     """one rendering.  Returns (trace record, output string)"""
+    Policy.allow_underscore = permissive
+    try:
+        return _run_case(ch, cls, secret, syn, ctx, deny)
+    finally:
+        Policy.allow_underscore = False
+
+
+def _run_case(ch, cls, secret, syn='html', ctx='plain', deny=None):
     from zExceptions import Unauthorized
     name, kind, src, build, probe = ch
     A = '_p' if cls == 'private' else 'x'
@@ -348,6 +357,21 @@ def main(tier):
                 ra['ctx'] = ctx
                 recs.append(ra)
                 meta.append((ch, cls, ra, oa, rb, ob))
+    # underscore names stay private independently of the guards: the same name channels under a permissive guard that would
+    # let underscore names through if it were asked
+    for ch in CHANNELS:
+        if ch[1] not in ('name', 'ifname', 'with', 'initem-attr', 'subtemplate'):
+            continue
+        for ctx in CONTEXTS:
+            if ch[0] == 'subtemplate' and ctx not in ('plain', 'after-plain-subtemplate', 'guarded-template-used-in-plain-before'):
+                continue
+            ra, oa = run_case(ch, 'private', secrets(ch, 'A'), 'html', ctx, permissive=True)
+            if ra is None:
+                continue
+            rb, ob = run_case(ch, 'private', secrets(ch, 'B'), 'html', ctx, permissive=True)
+            ra['ctx'] = ctx + ' (permissive guard)'
+            recs.append(ra)
+            meta.append((ch, 'private', ra, oa, rb, ob))
     # element channels: every subset of refused elements of a 4-element sequence
     import itertools
     for ch in CHANNELS:
@@ -430,7 +454,7 @@ def main(tier):
            'rule': '%d access channels x {public, underscore-private, guard-denied} attribute, each rendered twice with different '
                    'values behind the refused attribute (non-interference), guard and raw reads logged' % len(CHANNELS),
            'samples': [{'channel': m[0][0], 'cls': m[1], 'source': m[2]['src'], 'trace': m[2]['ev'][:6]} for m in meta[:3]]}
-    return V.finish(cov, assumptions=['the recording guard refuses underscore names like the real guards do',
+    return V.finish(cov, assumptions=['the recording guard refuses underscore names like the real guards do; the name channels are also run under a permissive guard that would let them through',
                                       'key access on mappings (dtml-with mapping, dtml-in mapping) is not mediated by design'])
 
 
